@@ -584,18 +584,19 @@ class _ContinueChecks(SyntaxRule):
 
     def is_issue(self, leaf):
         in_loop = False
+        in_finally = False
         for block in self._normalizer.context.blocks:
             if block.type in ('for_stmt', 'while_stmt'):
                 in_loop = True
+                # A loop within the finally clause can be continued.
+                in_finally = False
             if block.type == 'try_stmt':
                 last_block = block.children[-3]
-                if (
-                    last_block == "finally"
-                    and leaf.start_pos > last_block.start_pos
-                    and self._normalizer.version < (3, 8)
-                ):
-                    self.add_issue(leaf, message=self.message_in_finally)
-                    return False  # Error already added
+                if last_block == "finally" and leaf.start_pos > last_block.start_pos:
+                    in_finally = True
+        if in_finally and self._normalizer.version < (3, 8):
+            self.add_issue(leaf, message=self.message_in_finally)
+            return False  # Error already added
         if not in_loop:
             return True
 
